@@ -1,8 +1,31 @@
 package event
 
+import "github.com/emitter-io/emitter/internal/event/crdt"
+
 // VerifBanTimes exposes the add / remove time a one-operation ban payload carries
 // (harness-only accessor, injected by overlay).
 func (st *State) VerifBanTimes() [2]int64 {
 	t := st.subsets[typeBan].Get("the-key")
 	return [2]int64{t.AddTime(), t.DelTime()}
+}
+
+// VerifBanExpires reports whether the durable ban entry is stored with an expiry.
+func (st *State) VerifBanExpires(symbolic bool) bool {
+	d, ok := st.subsets[typeBan].(*crdt.Durable)
+	return ok && d.VerifExpires("the-key", symbolic)
+}
+
+// VerifHop sends a state through the set codecs (one gossip hop; the framing of the three
+// sets by binary.Marshal and snappy are outside). The result is what DecodeState builds:
+// volatile sets.
+func (st *State) VerifHop() (*State, error) {
+	out := NewState("")
+	for typ, set := range st.subsets {
+		v, err := crdt.VerifCodecHop(set)
+		if err != nil {
+			return nil, err
+		}
+		out.subsets[typ] = v
+	}
+	return out, nil
 }
